@@ -993,6 +993,37 @@ def c01u(ctx):
                          "propagation is ignored in every later epoch, the projections above the firewall are never re-executed and their callers keep the old value" % fn)
 
 
+def c01v(ctx):
+    """K8.  Dirty marks stop at firewalls AND projections.  What a query above a projection knows about the firewalls below it is
+    its recorded firewall set; the set is refreshed when the query is re-verified, and it is re-verified when something below
+    it dirties it.  A re-executed firewall / projection dirties its callers only when its VALUE fingerprint changed.  A
+    projection that starts to read ANOTHER firewall without changing its value therefore dirties nothing: its callers keep
+    the old firewall set, the user's repair never reaches the new firewall, and later changes of it are missed.  The decision
+    to propagate has to look at the firewall-set fingerprint as well as at the value."""
+    prog = ctx.prog
+    o = ctx.ob("C01.v", "execute_query/a-changed-firewall-set-is-propagated-like-a-changed-value", "K5",
+               "the propagate / backward-projection decision of a re-executed firewall or projection compares the firewall-set fingerprint as well as the value fingerprint")
+    cands = [b for b in prog.find(r"^Snapshot::execute_query::\{closure#0\}(::\{closure#0\})*$") if b.calls_to(r"dirty_propagate_from_batch$")]
+    if len(cands) != 1:
+        ctx.fail(o, "(program)", "anchor missing: the publishing block of execute_query (found %d)" % len(cands))
+        return
+    b = ctx.touch(cands[0])
+    prop = b.calls_to(r"dirty_propagate_from_batch$")[0]
+    cmps = [s_ for s_ in b.calls_to(r"core::cmp::PartialEq::(eq|ne)$") if b.site_dominates(s_, prop)]
+    o.sites = len(cmps)
+    value = tfc = False
+    for s_ in cmps:
+        for a in s_.node["args"][:2]:
+            d = df.Desc(b, a, prog)
+            value |= d.has("value_fingerprint")
+            tfc |= d.has("transitive_firewall_callees_fingerprint") or d.has("transitive_firewall_callees")
+    if not value:
+        ctx.fail(o, prop, "anchor missing: the value-fingerprint comparison that guards the propagation in execute_query")
+    elif not tfc:
+        ctx.fail(o, prop, "execute_query propagates from a re-executed firewall / projection only when its VALUE fingerprint changed: a projection that switches to another firewall with the "
+                 "same value dirties nothing, its callers keep the old firewall set and never repair the new firewall")
+
+
 def c01p(ctx):
     """`dirtied_queries` de-duplicates propagation tasks *within* one session.  It must be emptied before each session's
     propagation, otherwise a node dirtied in an earlier session is skipped (its callers keep clean edges) in this one."""
@@ -1200,6 +1231,7 @@ def run(ctx):
     ctx.run_clause("C01.o", c01o)
     ctx.run_clause("C01.t", c01t)
     ctx.run_clause("C01.u", c01u)
+    ctx.run_clause("C01.v", c01v)
     ctx.run_clause("C01.p", c01p)
     ctx.run_clause("C01.q", c01q)
     ctx.run_clause("C01.r", c01r)
